@@ -694,11 +694,14 @@ class BasePlaceholderManager(MpfController):
 
     def _eval_if(self, node, variables, subscribe):
         value, subscription = self._eval(node.test, variables, subscribe)
-        if value:
-            ret_value, ret_subscription = self._eval(node.body, variables, subscribe)
-            return ret_value, subscription + ret_subscription
-
-        ret_value, ret_subscription = self._eval(node.orelse, variables, subscribe)
+        try:
+            if value:
+                ret_value, ret_subscription = self._eval(node.body, variables, subscribe)
+            else:
+                ret_value, ret_subscription = self._eval(node.orelse, variables, subscribe)
+        except TemplateEvalError as e:
+            # keep watching the variables of the test. they decide which branch is taken
+            raise TemplateEvalError(subscription + e.subscriptions)
         return ret_value, subscription + ret_subscription
 
     def _eval_bin_op(self, node, variables, subscribe):
